@@ -14,6 +14,7 @@ import subprocess
 import sys
 from pathlib import Path
 
+READY = True
 LEVEL = 'exploration'
 TECHNIQUE = ('end-to-end post-condition monitor on the real translate CLI: output triple run by the real checker and by the reference '
              'machine, published claim/axioms compared with an independent structural image of the database; differential over '
@@ -293,6 +294,8 @@ def shard(ctx):
         if mech != 'mandatory_hyp_order_hash_seed_dependent':
             tags = shape_tags(features)
             if tags:
+                if mech.startswith('translate_raises:'):
+                    mech = 'translate_raises'      # where the replay trips over the operand order is incidental
                 mech += '|' + '+'.join(tags)
             if '_layout_dependent' in runs:
                 mech += '|layout_dependent'
